@@ -426,8 +426,9 @@ Handle(e) ==
       [] e.ev = "LockRegion" ->
            LET reg == Region(cb, e.x, e.y, e.w, e.h) IN
            <<term, LockAll(cb, reg, e.lock), [scr EXCEPT !.unl = IF e.lock THEN @ \ reg ELSE @ \cup reg], {}>>
-      [] e.ev = "Show" -> Draw(e, FALSE)
-      [] e.ev = "Sync" -> Draw(e, TRUE)
+      \* a suspended or finalized screen has no display to bring up to date: the call draws nothing
+      [] e.ev = "Show" -> IF scr.running THEN Draw(e, FALSE) ELSE <<Feed(term, e), cb, scr, {}>>
+      [] e.ev = "Sync" -> IF scr.running THEN Draw(e, TRUE) ELSE <<Feed(term, e), cb, scr, {}>>
       [] e.ev = "Hang" -> <<term, cb, scr, {Dev("C01.hang", e.call, 0, 0, 0)}>>
       [] e.ev = "Redraw" ->
            \* the resize notification makes the main loop redraw everything
@@ -443,7 +444,10 @@ Handle(e) ==
       [] e.ev = "Resume" -> IF e.err THEN <<Feed(term, e), cb, scr, {}>> ELSE Engage(e, cb)
       [] e.ev \in {"Suspend", "Fini"} ->
            IF scr.running THEN Disengage(e)
-           ELSE LET t1 == Feed(term, e) IN <<t1, cb, [scr EXCEPT !.fini = @ \/ e.ev = "Fini"], StreamDevs(term, t1)>>
+           \* on a screen that is not running the call has nothing to undo - but "when Fini() or Suspend() returns" the
+           \* terminal is restored whatever came before, mode calls made while it was suspended included
+           ELSE LET t1 == Feed(term, e) IN <<t1, cb, [scr EXCEPT !.fini = @ \/ e.ev = "Fini"],
+                                             StreamDevs(term, t1) \cup RestoredDevs(cfg, t1, scr)>>
       [] e.ev = "EnableMouse" -> ModeCall(e, [scr EXCEPT !.mflags = e.n])
       [] e.ev = "DisableMouse" -> ModeCall(e, [scr EXCEPT !.mflags = 0])
       [] e.ev = "EnablePaste" -> ModeCall(e, [scr EXCEPT !.paste = TRUE])
